@@ -314,7 +314,7 @@ def run(ctx):
     cov = {
         "evaluations": evaluations + sum(len(h["ops"]) for h in good),
         "distinct_nontrivial": histories + nontrivial,
-        "rule": "every operation history up to the stated length over 5 keys (3 sharing one hash; configurations zero3 = shared hash 0, same5 = all five equal, prefill = the 3 keys share the hash of 7 resident keys of which 2 were deleted) is enumerated, each distinct; alphabets: core = insert/delete x 5 keys, popfirst, clear; full = core + setdefault x 5, update, union (dict) / update, union, intersection, difference, symmetric_difference by method with duplicates and by operator (set); for sets issubset / issuperset / the six comparison operators are queried after the last operation as well; compared with a Go association list after the last operation of every history (all prefixes are histories too): output, len, item order, lookup of all 5 keys; NO ALIASING: a derived operation must return a fresh collection -- the operands of every derived operation in a history are remembered with their contents and re-read at every later comparison (they must never change while the result is mutated), and after the last operation of every 4th history (every 32nd in the enumerations of length >= 6) each derived operation is applied with an EMPTY and a small second operand (method and operator forms), the result compared with the association list, then result, left and right operand are mutated in turn while the other two must not move; big collections (bigsets): tables of 8..64 chains with ONE chain of 65..200 entries (hashes equal modulo 2^12, some fully equal) next to populated chains, filled in shuffled order with deletions, then issubset / issuperset by method and the six comparison operators and every derived operation against second big collections (reversed, superset, subset missing one element of the long / a neighbour chain, shuffle with duplicates, nearly disjoint), both routes, compared after every operation; random histories: hash distributions include a heavy chain next to populated chains and interleave subset / superset / comparison queries against big second collections, compared after every operation; programs: histories written as Starlark source over built-in key types (short / long strings, small / big ints, tuples, None, True) including keyword arguments of dict.update, executed by the interpreter, items compared after every statement; sample histories: every observation evaluated in Coq against Concrete.v and Spec.v. distinct_nontrivial = enumerated histories + random histories + sample histories with >= 5 operations",
+        "rule": "every operation history up to the stated length over 5 keys (3 sharing one hash; configurations zero3 = shared hash 0, same5 = all five equal, prefill = the 3 keys share the hash of 7 resident keys of which 2 were deleted) is enumerated, each distinct; alphabets: core = insert/delete x 5 keys, popfirst, clear; full = core + setdefault x 5, update, union (dict) / update, union, intersection, difference, symmetric_difference by method with duplicates and by operator (set); for sets issubset / issuperset / the six comparison operators are queried after the last operation as well; compared with a Go association list after the last operation of every history (all prefixes are histories too): output, len, item order, lookup of all 5 keys; stored VALUES include None (encoded 0) for about a third / quarter of the dict inserts, setdefaults and update / union operands in every generator, so every value-returning operation (get, d[k], `in`, pop with and without default, popitem, setdefault on present and absent keys) also meets keys that are present with the value None; NO ALIASING: a derived operation must return a fresh collection -- the operands of every derived operation in a history are remembered with their contents and re-read at every later comparison (they must never change while the result is mutated), and after the last operation of every 4th history (every 32nd in the enumerations of length >= 6) each derived operation is applied with an EMPTY and a small second operand (method and operator forms), the result compared with the association list, then result, left and right operand are mutated in turn while the other two must not move; big collections (bigsets): tables of 8..64 chains with ONE chain of 65..200 entries (hashes equal modulo 2^12, some fully equal) next to populated chains, filled in shuffled order with deletions, then issubset / issuperset by method and the six comparison operators and every derived operation against second big collections (reversed, superset, subset missing one element of the long / a neighbour chain, shuffle with duplicates, nearly disjoint), both routes, compared after every operation; random histories: hash distributions include a heavy chain next to populated chains and interleave subset / superset / comparison queries against big second collections, compared after every operation; programs: histories written as Starlark source over built-in key types (short / long strings, small / big ints, tuples, None, True) including keyword arguments of dict.update, executed by the interpreter, items compared after every statement; sample histories: every observation evaluated in Coq against Concrete.v and Spec.v. distinct_nontrivial = enumerated histories + random histories + sample histories with >= 5 operations",
         "samples": samples, "distribution": dist, "structure_coverage": cover,
         "histories": histories + len(good),
         "model_mismatches": len(bad_model), "spec_mismatches": len(bad_spec),
